@@ -728,6 +728,8 @@ func genCase(t *rapid.T) Case {
 	if rapid.IntRange(0, 2).Draw(t, "layered") == 0 {
 		g.genLayers()
 	}
+	// only where Coalesce has nothing to merge: the oracle compares the stored intervals exactly
+	c.Coalesce = rapid.IntRange(0, 2).Draw(t, "coalesce") == 0 && baseCoalesced(&c)
 	c.Text = c.Source()
 	return c
 }
@@ -761,4 +763,27 @@ func (g *gctx) genLayers() {
 		c.Temporal[pair[0]].Out, c.Temporal[pair[0]].InText = false, false
 		c.Temporal[pair[1]].Out = true
 	}
+}
+
+// baseCoalesced: no two intervals that the base layer holds for one atom overlap or are adjacent.
+func baseCoalesced(c *Case) bool {
+	type span struct{ lo, hi int64 }
+	byAtom := map[string][]span{}
+	for _, f := range c.Temporal {
+		if f.InText || (c.Layered && f.Out) {
+			continue
+		}
+		lo, hi := f.Iv.bounds()
+		k := fmt.Sprint(f.Pred, f.Args)
+		for _, o := range byAtom[k] {
+			// disjoint and not adjacent: one ends at least two nanoseconds before the other starts
+			before := hi < o.lo && o.lo-hi >= 2
+			after := o.hi < lo && lo-o.hi >= 2
+			if !before && !after {
+				return false
+			}
+		}
+		byAtom[k] = append(byAtom[k], span{lo, hi})
+	}
+	return true
 }
